@@ -26,7 +26,8 @@ def run(ctx):
     O = ("LinGauge", "Linearizable")
     if ctx.quick:
         for sc, lb in ((G2, "G2"), (G2b, "G2b"), (J2, "J2"), (J2b, "J2b")):
-            run_scenario(ctx, "C11", exe, sc, lb, stats, samples, *O, model=True, nrandom=100)
+            kinds = [sc["kind"], sc["kind"] + "vec_child"] if lb in ("G2", "J2b") else None       # also as children of gauge vectors
+            run_scenario(ctx, "C11", exe, sc, lb, stats, samples, *O, model=True, nrandom=100, kinds=kinds)
         for sc, lb in ((G2s, "G2s"), (J2max, "J2max"), (J2bmin, "J2bmin")):
             run_scenario(ctx, "C11", exe, sc, lb, stats, samples, *O, model=True, nrandom=50)
     else:
